@@ -207,6 +207,10 @@ for h in (3, 5):
            unwind=max(h + 3, 7), bound="ASCII haystack %d, needle 1, %s" % (h, CFGNAME[k]), cost=3)
     UC("c05-sub1-ascii-agree-h%d" % h, "exact", "sub1_ascii_agree::<%d,0>()" % h, {"C03": "quick"}, "bounded", EXACT_FNS[:1], "substring_match_1_ascii: variants agree", unwind=max(h + 3, 7), bound="ASCII haystack %d" % h)
 ARMNAME = {0: "ignore_case off", 1: "ignore_case on, needle starts with a letter", 2: "ignore_case on, first letter at index 1", 3: "ignore_case on, no letter in the first two needle chars"}
+UC("c04-sub1-ascii-optimum-h5-k0", "exact", "sub1_ascii::<5,0>()", {"C04": "quick"}, "bounded", EXACT_FNS[:1],
+   "one-character needle: the reported occurrence is the true optimum (leftmost occurrence with the highest bonus), score 16 + 2*bonus", unwind=8, bound="ASCII haystack 5, needle 1, DEFAULT", cost=3, core=True)
+UC("c04-sub1-ascii-optimum-h5-k1", "exact", "sub1_ascii::<5,1>()", {"C04": "quick"}, "bounded", EXACT_FNS[:1],
+   "same under match_paths() (delimiter bonus above whitespace bonus)", unwind=8, bound="ASCII haystack 5, needle 1, match_paths()", cost=3, core=True)
 for (h, n) in ((3, 2), (4, 2), (4, 3), (5, 3), (6, 3), (6, 4)):
     for k in (0, 1):
         for arm in (0, 1, 2, 3):
@@ -277,6 +281,12 @@ for (h, n) in ((4, 2), (5, 3)):
     UC("c02-entry-fallback-wit-h%d-n%d" % (h, n), "entry", "entry_witness::<0,%d,%d,0>()" % (h, n), {"C02": tier, "C01": tier, "C03": tier}, "bounded", ALGS[0][1] + ["Matcher::fuzzy_match_optimal (fallback arm)", "Matcher::fuzzy_match_greedy_"],
        "fuzzy_indices with the slab refusing: same decision, W, score == scheme", unwind=max(h + 3, 7),
        bound="Ascii x Ascii, haystack %d, needle %d, MatrixSlab::alloc stubbed to return None" % (h, n), cost=6, stubs=REFUSE)
+# C10-primary copies of three cheap entry obligations: their frame clause (the call leaves the
+# configuration untouched) and CBMC's panic/overflow/bounds checks are C10's subject
+for alg, (h, n) in ((5, (3, 3)), (3, (4, 2)), (0, (3, 3))):
+    UC("c10-entry-frame-%s-h%d-n%d" % (ALGS[alg][0], h, n), "entry", "entry_decision::<%d,%d,%d,0>()" % (alg, h, n), {"C10": "quick"}, "bounded", ALGS[alg][1],
+       "%s_match: returns without panic/overflow/out-of-bounds access, leaves the matcher's configuration untouched, decides the documented relation" % ALGS[alg][0],
+       unwind=7, bound="entry point %s, Ascii x Ascii, haystack %d, needle %d, DEFAULT" % (ALGS[alg][0], h, n), cost=3, core=True)
 UC("c05-entry-canary", "entry", "entry_canary()", {"C05": "quick", "C01": "quick"}, "bounded", [], "canary", unwind=8, expect="fail", no_cover=True)
 
 # ---------------------------------------------------------------------------
